@@ -35,35 +35,35 @@ pub fn suites() -> Vec<Suite> {
         Suite {
             name: "forward_vs_execution",
             about: "(a) Simulation queried in the pre-state vs the immediately executed well-formed swap (attributes and ledger), all pair kinds, both directions, offers from 1 to beyond the reserves",
-            head_len: HEAD_LEN, op_len: OP_LEN, max_ops: 24, quick_cases: 3_000, thorough_cases: 300_000,
+            head_len: HEAD_LEN, op_len: OP_LEN, max_ops: 24, quick_cases: 10_000, thorough_cases: 300_000,
             run: run_a, direct: Some(direct_with::<SimExecOnly>),
             must_hit: &["q:execute", "q:hook", "q:paid", "k:native/native", "k:native/cw20", "k:cw20/cw20"],
         },
         Suite {
             name: "forward_vs_execution_hostile",
             about: "(a) on histories with extreme magnitudes",
-            head_len: HEAD_LEN, op_len: OP_LEN, max_ops: 20, quick_cases: 1_500, thorough_cases: 150_000,
+            head_len: HEAD_LEN, op_len: OP_LEN, max_ops: 20, quick_cases: 5_000, thorough_cases: 150_000,
             run: run_a_hostile, direct: Some(direct_with::<SimExecOnly>),
             must_hit: &["q:execute", "q:hook"],
         },
         Suite {
             name: "reverse_closed_form",
             about: "(b) after every step ReverseSimulation is probed on a generated pair in both directions with asks from 1 to beyond what the pool can pay, and judged against x*y/(y - ask/(1-c)) - x: never above, below only by the derived rounding bound",
-            head_len: HEAD_LEN, op_len: OP_LEN, max_ops: 20, quick_cases: 2_500, thorough_cases: 250_000,
+            head_len: HEAD_LEN, op_len: OP_LEN, max_ops: 20, quick_cases: 8_000, thorough_cases: 250_000,
             run: run_b, direct: Some(direct_with::<ReverseOracle>),
             must_hit: &["b:within-bounds", "b:skipped-D<=0", "b:query-rejected"],
         },
         Suite {
             name: "reverse_closed_form_hostile",
             about: "(b) on histories with extreme magnitudes",
-            head_len: HEAD_LEN, op_len: OP_LEN, max_ops: 20, quick_cases: 1_500, thorough_cases: 150_000,
+            head_len: HEAD_LEN, op_len: OP_LEN, max_ops: 20, quick_cases: 5_000, thorough_cases: 150_000,
             run: run_b_hostile, direct: Some(direct_with::<ReverseOracle>),
             must_hit: &["b:within-bounds"],
         },
         Suite {
             name: "router_composition",
             about: "(c) after every step a generated route (0..5 hops, occasionally over assets without a pair) is quoted forward and backward through the router and compared with the harness's own fold of the pair queries; both must fail where the fold fails",
-            head_len: HEAD_LEN, op_len: OP_LEN, max_ops: 20, quick_cases: 2_500, thorough_cases: 250_000,
+            head_len: HEAD_LEN, op_len: OP_LEN, max_ops: 20, quick_cases: 8_000, thorough_cases: 250_000,
             run: run_c, direct: Some(direct_with::<RouterSimOracle>),
             must_hit: &["c:forward-agree", "c:forward-both-fail", "c:reverse-agree", "c:reverse-both-fail", "c:0-hops", "c:1-hop", "c:2-hops", "c:3-hops", "c:4+-hops"],
         },
